@@ -453,7 +453,7 @@ func writeReplay(eng *Engine, verif, prop string, o *Oblig) *ReplayRecord {
 	r := &ReplayRecord{Property: prop, Obligation: o.ID, Kind: o.Kind, Clause: o.Src, Function: o.Fn, Position: o.Pos.String(),
 		Result: o.Result, Solver: o.Solver, Output: out, Error: o.Err}
 	r.Path = filepath.Join(verif, "replays", fmt.Sprintf("%s-%08x.json", prop, hashStr(o.ID)))
-	if o.Result == "sat" {
+	if o.Result == "sat" || o.candidate {
 		tryReplay(eng, verif, o, r)
 	}
 	data, _ := json.MarshalIndent(r, "", " ")
